@@ -83,6 +83,24 @@ def mkdef(id, lvl, **alpha_kw):
     return d
 
 
+def api_variants(fam, seed, p=0.35):
+    """the same parser through other entry points of the API (the specification does not see the difference):
+    `collect::<Vec<_>>()` for `many()`, the `choice` function for `construct!([..])`"""
+    rnd = random.Random(seed)
+    for d in fam:
+        for lvl in all_levels(d):
+            for f in lvl["named"]:
+                if f.get("kind") == "alt" and rnd.random() < p:
+                    f["via_choice"] = True
+                for it in (field_leaves(f) if f.get("kind") in ("switch", "reqflag", "arg", "alt", "adj") else []):
+                    if it.get("arity") == "many" and rnd.random() < p:
+                        it["via_collect"] = True
+            for q in lvl["tail"].get("items", []):
+                if q.get("arity") == "many" and rnd.random() < p:
+                    q["via_collect"] = True
+    return fam
+
+
 def all_levels(lvl):
     yield lvl
     if lvl["tail"]["kind"] == "cmd":
